@@ -146,7 +146,9 @@ func famC04(rn *Runner) {
 				rn.scalar(d, env, p, call("sum", &EPath{Steps: []*Stp{{Axis: "attribute", Test: NodeTest{Kind: "any"}, Abbrev: true}}}), "sum-converts-with-number", "sum() applies number() to the string-value of each node", true)
 			}
 			// the node-set itself as the answer: ExecAsString / ExecAsNumber convert it as string() / number() would
+			allRoutes = pi%2 == 0 // every route for this answer (the typed entry points above all), on every other node
 			rn.scalar(d, env, p, uo[pi%len(uo)], "nodeset-answer-unordered", "a node-set answer converts through its first node in document order (ExecAsString, ExecAsNumber)", true)
+			allRoutes = false
 			for k := 0; k < 3; k++ {
 				a := uo[(pi*3+k)%len(uo)]
 				f := pick(rn.R, []string{"string", "number", "string", "normalize-space", "string-length"})
